@@ -1003,9 +1003,13 @@ class Context(MetadataContextMixin, object):
         if self.query is not None:
             self.enable_store_metadata = True
             self.debug(f"Subquery {query} called from {self.query.encode()}")
-            state = self.child_context().evaluate(
-                query, store_key=store_key, store_to=store_to, input_value=input_value, input_value_specified=input_value_specified
-            )
+            try:
+                state = self.child_context().evaluate(
+                    query, store_key=store_key, store_to=store_to, input_value=input_value, input_value_specified=input_value_specified
+                )
+            except EvaluationException as e:
+                self.error(f"Error while evaluating subquery {query}: {e.original_message}", position=e.position, query=e.query)
+                raise
             if not isinstance(query, str):
                 query = query.encode()
             self.log_subquery(query=query, description=description)
@@ -1082,7 +1086,11 @@ class Context(MetadataContextMixin, object):
                 c=self.child_context()
                 c.evaluated_key = self.evaluated_key
                 c.cwd_key = self.cwd_key
-                state = c.evaluate(p, cache=cache, input_value=input_value, input_value_specified=input_value_specified)
+                try:
+                    state = c.evaluate(p, cache=cache, input_value=input_value, input_value_specified=input_value_specified)
+                except EvaluationException as e:
+                    self.error(f"Error while evaluating parent query {p.encode()}: {e.original_message}", position=e.position, query=e.query)
+                    raise
             if state.is_error:
                 self.status = Status.ERROR
                 self.store_metadata()
